@@ -160,7 +160,7 @@ func (s *SinkUDFService) Create(name, taskID, nodeID string, d udf.Diagnostic, a
 	if !ok {
 		return nil, fmt.Errorf("unknown udf %s", name)
 	}
-	return &sinkUDF{svc: s, key: taskID + "/" + nodeID, info: info, in: make(chan edge.Message), out: make(chan edge.Message), done: make(chan struct{}), abort: abortCallback}, nil
+	return &sinkUDF{svc: s, key: taskID + "/" + nodeID, info: info, in: make(chan edge.Message), out: make(chan edge.Message), done: make(chan struct{}), abort: abortCallback, abrt: make(chan struct{})}, nil
 }
 
 type sinkUDF struct {
@@ -177,7 +177,6 @@ type sinkUDF struct {
 }
 
 func (u *sinkUDF) Open() error {
-	u.abrt = make(chan struct{})
 	go func() {
 		defer close(u.done)
 		defer close(u.out)
